@@ -98,6 +98,19 @@ theorem binary_left_error_skips_right (n : Nat) (o : String) (l r : Expr) (s : S
   simp only [evalExpr, hl]
   split <;> simp
 
+/-- `x in l`: the item, then the WHOLE list operand - with a list literal every element, in order
+(`list_head_then_tail`), whether or not an earlier element already equals the item; the membership test
+runs on the finished list. -/
+theorem in_item_then_whole_list (n : Nat) (it l : Expr) (s : St)
+    (hi : (evalExpr n it s).err = none) (hl : (evalExpr n l (evalExpr n it s)).err = none) :
+    evalExpr (n + 1) (.incl it l) s =
+      opRes (evalExpr n l (evalExpr n it s)) (inOp (evalExpr n it s).rv (evalExpr n l (evalExpr n it s)).rv) := by
+  simp [evalExpr, hi, hl]
+
+theorem in_item_error_skips_list (n : Nat) (it l : Expr) (s : St)
+    (hi : (evalExpr n it s).err.isSome = true) : evalExpr (n + 1) (.incl it l) s = evalExpr n it s := by
+  simp [evalExpr, hi]
+
 theorem index_operand_then_index (n : Nat) (x i : Expr) (s : St)
     (hx : (evalExpr n x s).err.isSome = true) : evalExpr (n + 1) (.item x i) s = evalExpr n x s := by
   simp [evalExpr, hx]
